@@ -16,7 +16,7 @@ def run(ctx):
         if ctx.facts.body(a) is None and a.endswith("next_message_slice"):
             funcs.append(a)  # reported as ANCHOR-MISSING by the callee
     lib_call.check_read_exact(ctx, funcs, r"AsyncReadExt$", r"^futures(_util)?::io::BufReader<")
-    R.floor("CALL-R", 2)
+    R.floor("CALL-R", 1)
     try:
         from rules import lib_reader
         lib_reader.check_read_message(ctx, "stream")
